@@ -3,7 +3,9 @@ package exec
 import (
 	"context"
 	"encoding/json"
+	"errors"
 	"fmt"
+	"strconv"
 	"strings"
 
 	"github.com/theory/sqljson/path/ast"
@@ -136,7 +138,8 @@ func compareNumeric(left, right any) int {
 				return compareNumbers(left, rightInt)
 			}
 			rightFloat, err := right.Float64()
-			if err == nil {
+			if err == nil || errors.Is(err, strconv.ErrRange) {
+				// Out of range values are ±Inf.
 				return compareNumbers(float64(left), rightFloat)
 			}
 			// This should not happen.
@@ -150,7 +153,8 @@ func compareNumeric(left, right any) int {
 			return compareNumbers(left, float64(right))
 		case json.Number:
 			rightFloat, err := right.Float64()
-			if err == nil {
+			if err == nil || errors.Is(err, strconv.ErrRange) {
+				// Out of range values are ±Inf.
 				return compareNumbers(left, rightFloat)
 			}
 			// This should not happen.
@@ -161,7 +165,8 @@ func compareNumeric(left, right any) int {
 			return compareNumeric(left, right)
 		}
 		leftFloat, err := left.Float64()
-		if err == nil {
+		if err == nil || errors.Is(err, strconv.ErrRange) {
+			// Out of range values are ±Inf.
 			return compareNumeric(leftFloat, right)
 		}
 		// This should not happen.
